@@ -18,6 +18,7 @@
 #include <atomic>
 #include <chrono>
 #include <memory>
+#include <mutex>
 #include <string>
 #include <thread>
 #include <vector>
@@ -56,6 +57,26 @@ struct tinfo
     std::atomic<int> finished{0};
 };
 static std::vector<tinfo>* g_tasks = nullptr;
+
+// Flags polled by spinning tasks are set by a plain OS thread, so a spinner (re-queued with boosted
+// priority) can never starve the one that releases it.
+static std::mutex g_flag_mtx;
+static std::vector<std::shared_ptr<std::atomic<bool>>> g_flags;
+static std::atomic<bool> g_flag_stop{false};
+static void flag_setter()
+{
+    while (!g_flag_stop.load())
+    {
+        std::vector<std::shared_ptr<std::atomic<bool>>> todo;
+        {
+            std::lock_guard<std::mutex> l(g_flag_mtx);
+            todo.swap(g_flags);
+        }
+        if (todo.empty()) { std::this_thread::sleep_for(std::chrono::microseconds(50)); continue; }
+        std::this_thread::sleep_for(std::chrono::microseconds(100));
+        for (auto& f : todo) f->store(true);
+    }
+}
 
 static void* self_obj()
 {
@@ -154,17 +175,7 @@ static void task_body(long id, std::uint64_t seed, int depth, int maxdepth, int 
                             pika::this_thread::yield();
                             cg.resume_();
                         }
-                        if (spin)
-                        {
-                            for (int k = 0; k < int(r2.below(40)); ++k)
-                            {
-                                cg.pause();
-                                pika::this_thread::yield();
-                                cg.resume_();
-                            }
-                            flag->store(true);
-                        }
-                        else sem->release();
+                        if (!spin) sem->release();
                         if (depth + 1 < maxdepth) spawn(r2.next(), depth + 1, maxdepth, width);
                     }));
             }
@@ -173,7 +184,14 @@ static void task_body(long id, std::uint64_t seed, int depth, int maxdepth, int 
         if (shake)
         {
             g.pause();
-            if (spin) pika::util::yield_while([&] { return !flag->load(); }, "e2 spin");
+            if (spin)
+            {
+                {
+                    std::lock_guard<std::mutex> l(g_flag_mtx);
+                    g_flags.push_back(flag);
+                }
+                pika::util::yield_while([&] { return !flag->load(); }, "e2 spin");
+            }
             else sem->acquire();
             g.resume_();
         }
@@ -219,6 +237,7 @@ int main(int argc, char** argv)
     for (int i = 5; i < argc; ++i) av.push_back(argv[i]);
     pika::start(nullptr, int(av.size()), av.data());
 
+    std::thread setter(flag_setter);
     rng r{seed * 7919 + 13};
     int roots = prog == "pingpong" ? size : 1 + size / 4;
     int maxdepth = prog == "fanout" ? 3 + int(r.below(3)) : 2 + int(r.below(2));
@@ -264,7 +283,9 @@ int main(int argc, char** argv)
         }
         // quiescent = no task is running, nothing is staged, every queue is empty and the log has
         // stopped growing (a pending thread that sits in no queue does not count as work)
-        long busy = tm.get_thread_count(st::active) + tm.get_thread_count(st::staged) + tm.get_queue_length(false);
+        long ql = 0;
+        try { ql = tm.get_queue_length(false); } catch (...) { ql = tm.get_thread_count(st::pending); }
+        long busy = tm.get_thread_count(st::active) + tm.get_thread_count(st::staged) + ql;
         std::size_t logsz = e2::g_log->size();
         if (busy == 0 && logsz == last_log && d == last_done)
         {
@@ -278,6 +299,22 @@ int main(int argc, char** argv)
         else quiet = 0;
         last_log = logsz;
         last_done = d;
+    }
+    g_flag_stop.store(true);
+    setter.join();
+    if (!hang && !overflow)
+    {
+        // let the workers finish storing the last states so that the log ends at rest
+        std::size_t prev = 0;
+        int stable = 0;
+        for (int i = 0; i < 2000 && stable < 10; ++i)
+        {
+            std::this_thread::sleep_for(std::chrono::milliseconds(1));
+            std::size_t cur = e2::g_log->size();
+            if (cur == prev && tm.get_thread_count(st::active) == 0) ++stable;
+            else stable = 0;
+            prev = cur;
+        }
     }
     e2::g_enabled.store(false);
     long total = g_total.load();
